@@ -63,6 +63,26 @@ var pureExternal = map[string]bool{
 	"regexp.QuoteMeta": true,
 }
 
+// whole packages whose package-level functions are pure (no state, no I/O, deterministic)
+var purePackages = map[string]bool{"strings": true, "strconv": true, "unicode": true, "unicode/utf8": true, "unicode/utf16": true, "math": true, "math/bits": true, "cmp": true, "errors": true, "bytes": true, "path": true}
+
+// isPureExternal: allow-listed by name, or a package-level function of a pure package
+func isPureExternal(name string) bool {
+	if pureExternal[name] {
+		return true
+	}
+	if strings.HasPrefix(name, "(") {
+		return false // methods are listed individually
+	}
+	if i := strings.LastIndex(name, "."); i > 0 && purePackages[name[:i]] {
+		if _, mut := mutatorExternal[name]; mut {
+			return false
+		}
+		return true
+	}
+	return false
+}
+
 // external functions that write through one argument (index of the written referent);
 // legal only when that referent is fresh in the caller.
 var mutatorExternal = map[string]int{
@@ -372,7 +392,7 @@ func (a *efAnalysis) callResultOrigin(c *ssa.Call) origin {
 				// result may alias an argument or a global
 				o |= a.repoResultOrigin(n.fn, c)
 			}
-		case pureExternal[n.name] || initOnlyExternal[n.name]:
+		case isPureExternal(n.name) || initOnlyExternal[n.name]:
 			// pure std functions return fresh values (strings.Split, FindStringSubmatch ...)
 			o |= oFresh
 		case n.name == "builtin.min" || n.name == "builtin.max":
@@ -562,7 +582,7 @@ func (a *efAnalysis) checkCall(f *ssa.Function, fk string, inInit bool, c ssa.Ca
 					r.Bad("R-PURE-WRITE", fk+": append to "+describeAddr(com.Args[0]), pos, "append to a slice of origin "+o.String()+" may write into a shared backing array")
 				}
 			}
-		case pureExternal[n.name]:
+		case isPureExternal(n.name):
 			r.Triv("R-PURE-CALL", key, pos, "allow-listed pure function")
 			// function-typed arguments are repo closures and are analysed as reachable
 		case initOnlyExternal[n.name]:
